@@ -1011,6 +1011,48 @@ func checkC19(w *World, r *Report) {
 			r.Check(ok1 && ok2, "C19.R4", "Member.PID<->Cluster.Start", "members address each other's agent as cluster/<id>, the id the agent is spawned under", w.fnPos(mp), "notifications are sent to a PID no agent answers to")
 		}
 	}
+	// R6: the Cluster facade
+	r.Rule("C19.R6", "Cluster.Activate/Deactivate/GetActiveByID/GetActiveByKind/Spawn talk to the local agent with the caller's arguments; Cluster.Spawn announces the new PID to every member", 6)
+	{
+		eSend := w.Method("actor", "Engine", "Send")
+		req := w.Method("actor", "Engine", "Request")
+		type q struct{ m, lit string }
+		for _, c := range []q{{"Activate", "lit:activate{config=P2,kind=P1}"}, {"GetActiveByID", "lit:getActive{id=P1}"}, {"GetActiveByKind", "lit:getActive{kind=P1}"}} {
+			fn := w.Method("cluster", "Cluster", c.m)
+			w.checkRow(r, row{rule: "C19.R6", fn: fn, callee: EvCall("Request", req), name: "Engine.Request", args: []string{"P0.engine", "P0.agentPID", c.lit, "P0.config.requestTimeout"},
+				why: "The query does not reach the local agent with the caller's arguments."})
+			if fn != nil && c.m != "GetActiveByKind" {
+				// the answer returned is the agent's reply, type-asserted with comma-ok; errors yield nil
+				ok := true
+				n := 0
+				for _, b := range fn.Blocks {
+					for _, in := range b.Instrs {
+						if ret, isR := in.(*ssa.Return); isR {
+							p := w.pathOf(ret.Results[0])
+							if p != "K:nil" {
+								n++
+								if !strings.HasPrefix(p, "assert<*actor.PID>(call:(*actor.Response).Result(call:(*actor.Engine).Request(") || !strings.HasSuffix(p, "#0)#0") {
+									ok = false
+								}
+							}
+						}
+					}
+				}
+				r.Check(ok && n > 0, "C19.R6", "Cluster."+c.m+":returns-reply", c.m+" returns the PID the agent replied with", w.fnPos(fn), "the returned PID is not the agent's answer")
+			}
+		}
+		w.checkRow(r, row{rule: "C19.R6", fn: w.Method("cluster", "Cluster", "Deactivate"), callee: EvCall("Send", eSend), name: "Engine.Send", args: []string{"P0.engine", "P0.agentPID", "lit:deactivate{pid=P1}"},
+			why: "Deactivate does not reach the local agent with the given PID."})
+		sp := w.Method("cluster", "Cluster", "Spawn")
+		spPath := "call:(*actor.Engine).Spawn(P0.engine,P1,P2,P3)"
+		w.checkRow(r, row{rule: "C19.R6", fn: sp, callee: EvCall("Send", eSend), name: "Engine.Send", loop: true,
+			args:   []string{"P0.engine", "re:call:\\(\\*cluster\\.Member\\)\\.PID\\(call:\\(\\*cluster\\.Cluster\\)\\.Members\\(P0\\)\\[.*\\]\\)", "&lit:Activation{PID=" + spPath + "}"},
+			excuse: func(g *FG) []Edge { return allEdges(g) }, why: "A cluster-spawned actor is not announced to every member with its PID."})
+		if sp != nil {
+			ok, why := w.returnsOnly(sp, spPath)
+			r.Check(ok, "C19.R6", "Cluster.Spawn:returns-pid", "Cluster.Spawn returns the PID it announced", w.fnPos(sp), why)
+		}
+	}
 	// getActive by kind: the kind of an entry is the first segment of its id
 	{
 		g := w.FG(a.hGetActive)
